@@ -60,7 +60,7 @@ func startRunning(r *ev.Run) (*running, error) {
 		return nil, err
 	}
 	ru := &running{cancel: cancel, cfg: cfgs[0]}
-	ru.env = &env{r: r, s: s, phase: "running", running: true, seen: map[string]bool{}}
+	ru.env = &env{r: r, s: s, phase: "running", running: true, seen: map[string]bool{}, midWait: 2500 * time.Millisecond, blockedWait: 700 * time.Millisecond}
 	if !ru.waitLeader(false) {
 		ru.close()
 		return nil, fmt.Errorf("no leader")
